@@ -47,7 +47,7 @@ static struct var vars[] = {
 
 static struct vh_region rsrc, rdst;
 static FILE *out;
-static long calls, mism, splits;
+static long calls, mism, splits, huge_calls;
 static long per_var[NVARS];
 static int vec_id;
 
@@ -128,7 +128,7 @@ main(int argc, char **argv)
         out = fopen(argv[2], "w");
         if (!in || !out)
                 return 3;
-        vh_init((size_t) 1 << 33);
+        vh_init((size_t) 1 << 38);
         nvec = vh_rd(in);
         for (vi = 0; vi < nvec; vi++) {
                 char fam[64];
@@ -210,6 +210,68 @@ main(int argc, char **argv)
                 free(msg);
                 free(exp);
         }
+        /* messages longer than 2^32 bytes: head bytes, then a run of zero bytes (a sparse mapping, backed by the kernel's zero page),
+         * then tail bytes; expected values from Checksums!CrcWithZeros (multiplication by x^(8n) mod P).  argv[4] = vector file,
+         * argv[5] = 1: dispatched entry points only */
+        if (argc > 4) {
+                FILE *hin = fopen(argv[4], "r");
+                int only_dispatched = argc > 5 && atoi(argv[5]);
+                int nh = hin ? vh_rd(hin) : 0, hi_;
+                for (hi_ = 0; hi_ < nh; hi_++) {
+                        char fam[64];
+                        int nl, la, lb, v, f1, f2;
+                        uint64_t seed = 0, e1 = 0, e2 = 0, nz, total;
+                        unsigned char *A, *B, *p;
+                        struct vh_region hr;
+                        vec_id = vh_rd(hin);
+                        if (fscanf(hin, "%63s", fam) != 1)
+                                return 3;
+                        nl = vh_rd(hin);
+                        for (i = 0; i < nl; i++)
+                                seed |= (uint64_t) vh_rd(hin) << (16 * i);
+                        la = vh_rd(hin);
+                        A = vh_rd_bytes(hin, la);
+                        nz = (uint64_t) vh_rd(hin) << 32; /* zero-run length: high and low 32-bit halves (each < 2^31) */
+                        nz += (uint64_t) vh_rd(hin);
+                        lb = vh_rd(hin);
+                        B = vh_rd_bytes(hin, lb);
+                        for (i = 0; i < nl; i++)
+                                e1 |= (uint64_t) vh_rd(hin) << (16 * i);
+                        for (i = 0; i < nl; i++)
+                                e2 |= (uint64_t) vh_rd(hin) << (16 * i);
+                        total = la + nz + lb;
+                        hr = vh_region_new(total + 4096);
+                        p = hr.hi - total; /* end flush against the inaccessible page */
+                        memcpy(p, A, la);
+                        memcpy(p + la + nz, B, lb);
+                        for (v = 0; v < (int) NVARS; v++) {
+                                struct var *va = &vars[v];
+                                uint64_t r, r1, r2;
+                                if (strcmp(va->family, fam) || !va->f || va->kind == K16COPY || va->kind == KISCSI)
+                                        continue;
+                                if (only_dispatched && strcmp(va->name, fam) && strcmp(va->name, "isal_adler32") && strcmp(va->name, "isal_adler32_bam1"))
+                                        continue;
+                                huge_calls++;
+                                r = call(va, seed, p, total, NULL, &f1);
+                                if (f1)
+                                        report("huge-fault", va, -1, VH_END, 0, 0);
+                                else if (r != e2)
+                                        report("huge-wrong-checksum", va, -1, VH_END, 0, 0);
+                                r1 = call(va, seed, p, la, NULL, &f1);
+                                r2 = f1 ? 0 : call(va, r1, p + la, nz + lb, NULL, &f2);
+                                if (f1 || f2)
+                                        report("huge-fault", va, -1, VH_END, la, 1);
+                                else if (r1 != e1 || r2 != e2)
+                                        report("huge-does-not-compose", va, -1, VH_END, la, 1);
+                        }
+                        vh_region_free(&hr);
+                        free(A);
+                        free(B);
+                }
+                if (hin)
+                        fclose(hin);
+        }
+        fprintf(out, "{\"e\":\"hugesummary\",\"calls\":%ld}\n", huge_calls);
         fprintf(out, "{\"e\":\"summary\",\"calls\":%ld,\"mismatches\":%ld,\"faults\":%ld,\"splits\":%ld,\"variants\":{", calls, mism, vh_faults, splits);
         for (v = 0; v < NVARS; v++)
                 fprintf(out, "%s\"%s\":%ld", v ? "," : "", vars[v].name, vars[v].f ? per_var[v] : -1);
